@@ -800,6 +800,46 @@ fn check_field_identifiers(file: &File) -> Result<(), Diagnostics> {
     diagnostics.err_or(())
 }
 
+/// Check field identifiers in packet scopes.
+/// The scope of a declaration extends to the fields inlined from groups,
+/// and to the fields of the parent declarations.
+/// Raises error diagnostics for the following cases:
+///      - duplicate field identifier
+fn check_field_scopes(file: &File, scope: &Scope) -> Result<(), Diagnostics> {
+    let mut diagnostics: Diagnostics = Default::default();
+    for decl in &file.declarations {
+        let mut local_scope = HashMap::new();
+        for field in scope.iter_parent_fields(decl) {
+            if let Some(id) = field.id() {
+                local_scope.insert(id.to_string(), field);
+            }
+        }
+        for field in decl.fields() {
+            if let Some(id) = field.id() {
+                if let Some(prev) = local_scope.insert(id.to_string(), field) {
+                    diagnostics.push(
+                        Diagnostic::error()
+                            .with_code(ErrorCode::DuplicateFieldIdentifier)
+                            .with_message(format!(
+                                "redeclaration of {} field identifier `{}`",
+                                field.kind(),
+                                id
+                            ))
+                            .with_labels(vec![
+                                field.loc.primary(),
+                                prev.loc
+                                    .secondary()
+                                    .with_message(format!("`{id}` is first declared here")),
+                            ]),
+                    )
+                }
+            }
+        }
+    }
+
+    diagnostics.err_or(())
+}
+
 /// Check enum declarations.
 /// Raises error diagnostics for the following cases:
 ///      - duplicate tag identifier
@@ -1968,6 +2008,7 @@ pub fn analyze(file: &File) -> Result<File, Diagnostics> {
     let mut file = inline_groups(&file)?;
     desugar_flags(&mut file);
     let scope = Scope::new(&file)?;
+    check_field_scopes(&file, &scope)?;
     check_decl_constraints(&file, &scope)?;
     let schema = Schema::new(&file);
     check_field_offsets(&file, &scope, &schema)?;
